@@ -101,8 +101,8 @@ LemmaInv == (mode = "api" /\ spc = "status") => LemmaRoundTrip(r0)
 \* the denotation of every server wire image of the bound is the response the server meant
 SrvDenotes == (mode = "srv" /\ pos = 0) =>
                  LET d == DenoteResp(wire) IN d.ok /\ d.rest = "" /\ RespEq(d, r0)
-\* conforming messages never reach the open "truncated chunked stream" outcome
-NeverTrunc == res # "trunc"
+\* conforming messages are never refused
+NeverErr == res \in {"run", "ok"}
 
 -----------------------------------------------------------------------------
 (* Generation: one JSON line per case (initial state); NEXT is GenNext = no step                      *)
